@@ -643,7 +643,14 @@ func c05EntryPoints(c *fw.Ctx, kind string, in string) {
 		// ParseTokens on the token list the parser itself produced
 		p2 := parsers.NewExpressionParser()
 		got := safeObs(func() string { return obs(p2, p2.ParseTokens(p1.OriginalTokens())) })
-		if got != want && len(p1.OriginalTokens()) > 0 {
+		// (a list without a significant token - empty, or only blanks and comments where the parser keeps them - is exempt)
+		significant := 0
+		for _, tk := range p1.OriginalTokens() {
+			if tk != nil && tk.Type() != tokenizers.Whitespace && tk.Type() != tokenizers.Comment && tk.Type() != tokenizers.Eof {
+				significant++
+			}
+		}
+		if got != want && significant > 0 {
 			c.Violation("entry-point-differs:ParseTokens", "expression %q: ParseTokens(OriginalTokens()) gives %s, ParseString gives %s", in, got, want)
 		}
 		// the text composed from the tokens, submitted as a string to the same instance, is parsed afresh
@@ -781,7 +788,9 @@ func c05EntryPoints(c *fw.Ctx, kind string, in string) {
 // ---- one compiled program evaluated under changing variable values ("under the same variable values"
 // the value must equal a fresh instance's): histories of evaluation and variable-replacement steps
 
-var c05VarExprs = []string{"a", "a + b", "b - a * c", "a = 1 AND b = 2", "1 + 2", "A", "Max(a, b)", "a IS NULL", "zz"}
+var c05VarExprs = []string{"a", "a + b", "b - a * c", "a = 1 AND b = 2", "1 + 2", "A", "Max(a, b)", "a IS NULL", "zz",
+	// constants of the compiled program next to a variable in every argument position of the selecting functions
+	"Max(1, a)", "Min(60, a)", "Min(a, 60)", "Max(8, a, 12)", "If(a > 50, 1, a)", "Choose(2, 1, a)", "Sum(1, a)", "[1, a][0]", "a IN [9, 55, a]"}
 
 var c05VarOps = []string{"Evaluate()", "EvaluateUsingVariables(A)", "EvaluateUsingVariables(B)", "EvaluateUsingVariables(empty)", "EvaluateUsingVariablesAndFunctions(B,default)",
 	"A: remove a, add a=100", "A: a.SetValue(55)", "defaults: remove a, add a=7", "defaults: a.SetValue(9)", "defaults: Clear()"}
